@@ -32,6 +32,10 @@ CHECKS = {
    text="TLC enumerates every hierarchy within the bound as an initial state of spec/Hierarchy.tla (classes with single inheritance, interfaces with multiple extends, arbitrary implements edges; definer sets; method provisions) and checks the reference relation (preorder, interfaces inherited and closed upward), that the transcribed mechanism of data/type_class.go computes the same relation, and the dispatch/parent/like operators; each hierarchy is replayed as a script printing the instanceof / typed-parameter / catch tables, who()/self::/static::/self::class/static::class/parent::/chained parent:: results and the like verdicts.",
    note="Trusted: fixture shapes listed in the evidence assumptions; quick samples large families, thorough enumerates them completely (3 classes + 3 interfaces, 4 classes + 2 interfaces, 5-class dispatch chains).",
    tech="TLA+ spec (Hierarchy.tla: reference relation + transcribed mechanism) checked by TLC over all bounded hierarchies; each replayed as a script"),
+ "C15": dict(cat="model_checking", ref="§5 C15",
+   text="TLC model-checks spec/ArrayMethods.tla (three universes: ints, strings, nested lists; the receiver is the state, every method an action; NonMutatingLeaveReceiver, SpliceConservation, IndexOfIncludes, SliceIdentity, PushPopInverse) and spec/StringMethods.tla (byte-offset dialect pinned by the repository's own script tests; ReceiverUntouched, PrefixLaw, SplitJoinLaw, SubstringWhole); every edge (receiver x method x argument tuple incl. omitted optionals, negative / zero / beyond-length indexes, 0..2 variadic items, callbacks using element / index / array) is one real call with result and receiver-after compared; chains of 4 calls on one variable come from TLC -simulate.",
+   note="Trusted: json_encode / bin2hex as observation; documented semantics read as JavaScript Array semantics for arrays; for strings only what docs/strings.md and the repository's script tests fix is generated (no swapped substring bounds, no empty pieces with the default separator).",
+   tech="TLA+ specs (ArrayMethods.tla, StringMethods.tla) checked by TLC; every edge and simulated chain replayed as real method calls"),
 }
 NOT_YET = "check not built yet in this round (planned: TLA+ spec + conformance binding, see DESIGN.md §5)"
 def main():
